@@ -23,7 +23,8 @@ LEVEL_TEXT = (
     "pool); between builds, drawn steps compile, execute (twice), process, diagnose, hash or rebuild pool members.  After "
     "every step the snapshot (structural fingerprint incl. leaf payload content, str, repr, hash) of every pool member "
     "must be unchanged (materialization payloads excepted).  Caller-owned mutable arguments (sort-term lists, column "
-    "sets, sequence item lists) are mutated after each call."
+    "sets, sequence item lists) are mutated after each call.  The SQL of a relation must equal the SQL of its first "
+    "compilation in the history; once per fresh worker process a fixed set of relations is compiled twice in the same order."
 )
 LEVEL_NOTE = "trusts: snapshot()/fingerprint() see everything the statement lists; histories <= 8 / 12 builds + <= 12 / 20 other steps"
 RULE = (
